@@ -327,6 +327,15 @@ class Term:
         else:
             raise TypeError
 
+    def __setstate__(self, state):
+        """Used by copy.deepcopy and pickle: the state is the __dict__ of the
+        original object, whose _id is the address of that object. The new
+        object gets its own.
+
+        """
+        self.__dict__.update(state)
+        self._id = id(self)
+
     def __call__(self, *args):
         """Apply self (as a function) to a list of arguments."""
         res = self
